@@ -3,7 +3,7 @@
    Codes 10..19, 100+: the observed outputs violate the specification the theorems of Props/C16.v state
    (computed from the observations only, not from the tracker / splitter model). *)
 From Coq Require Import List NArith Bool.
-From RV Require Import Model.SplitTracker Model.Splitters Model.RunnerLoop Model.HttpReader.
+From RV Require Import Model.SplitTracker Model.Splitters Model.RunnerLoop Model.HttpReader Model.KinReader.
 Import ListNotations.
 Open Scope N_scope.
 
@@ -46,13 +46,22 @@ Inductive kev :=
 | KAppend (shards : list shard)
 | KTick (o : list (N * N * N))
 | KFinish (ids : list N) (o : list (N * N * N))
-| KCkpt (o_assigned : list shard) (o_last : N).
+| KCkpt (o_assigned : list shard) (o_last : N)
+        (reported o_published : list (N * N)).   (* split positions reported for this checkpoint id / in the published checkpoint *)
 
 (* real httpapi reader against a bounded topic *)
 Inductive hop :=
 | HRead (o : list N) (o_eoi : bool)     (* records returned by ReadEvents (topic positions), ErrEndOfInput? *)
 | HCkpt (o_cursor : N)                  (* Checkpoint() *)
 | HRestore.                             (* a new reader, assigned the split with the last checkpointed cursor *)
+
+(* real kinesis reader against kinesisfake *)
+Inductive krop :=
+| RPut (shard count : N)                       (* records appended to a shard *)
+| RClose (shard : N)                           (* the shard was split: it ends after its last record *)
+| RAssign (fresh : bool) (splits : list (N * N)) (* AssignSplits (shard, position); fresh = on a new reader (recovery) *)
+| RRead (o : list (N * N)) (o_fin : list N)    (* ReadEvents: records (shard, position); shards reported finished *)
+| RCkpt (o : list (N * N)).                    (* Checkpoint(): (shard, position) *)
 
 Inductive case :=
 | CRunner (steps : list step) (o_reports : list (N * list (N * N))) (o_streams : list (list ev)) (complete : bool)
@@ -62,7 +71,8 @@ Inductive case :=
 | CEmbedded (splits runners : N) (o : list (list N))
 | CEmbeddedRestore (splits runners : N) (panicked : bool) (states : list (N * N)) (o : list (list N)) (o_cur : list (N * option N))
 | CHttp (runners : N) (states : list (list N)) (o : list (N * list N))
-| CHttpRead (n b : N) (ops : list hop).
+| CHttpRead (n b : N) (ops : list hop)
+| CKinRead (limit : N) (ops : list krop).
 
 (* ================= runner: positions match the cut ================= *)
 
@@ -239,9 +249,11 @@ Definition ks_live (k : kspec) : list N :=
 Definition kspec_step (n : N) (k : kspec) (x : kev) : kspec * list N :=
   match x with
   | KAppend sh => (mkKS (ks_stream k ++ sh) (ks_fin k) (ks_epoch k) (ks_lost k) (ks_states k) (ks_saved k), [])
-  | KCkpt oa _ => (mkKS (ks_stream k) (ks_fin k) (ks_epoch k) (ks_lost k) (ks_states k) (ks_fin k, ks_lost k),
+  | KCkpt oa _ rep pub => (mkKS (ks_stream k) (ks_fin k) (ks_epoch k) (ks_lost k) (ks_states k) (ks_fin k, ks_lost k),
                    (* the published splitter state lists exactly the shards that have a reader now *)
-                   flag (same_set N.eqb (map sid oa) (filter (fun i => negb (mem i (ks_fin k))) (ks_epoch k))) 107)
+                   flag (same_set N.eqb (map sid oa) (filter (fun i => negb (mem i (ks_fin k))) (ks_epoch k))) 107 ++
+                   (* the published split positions are the ones reported for this checkpoint *)
+                   flag (same_set pair_eqb rep pub) 108)
   | KFinish ids o =>
       ks_assigns n (mkKS (ks_stream k) (ids ++ ks_fin k) (ks_epoch k) (ks_lost k) (ks_states k) (ks_saved k)) o
   | KTick o => let '(k', c) := ks_assigns n k o in (k', c ++ ks_live k')
@@ -260,7 +272,7 @@ Definition kmodel_step (n : N) (st : list shard * ksplitter) (x : kev) : (list s
   let '(stream, k) := st in
   match x with
   | KAppend sh => ((stream ++ sh, k), [])
-  | KCkpt oa ol => (st, flag (list_eqb shard_eqb (fst (k_checkpoint k)) oa && (snd (k_checkpoint k) =? ol)) 31)
+  | KCkpt oa ol _ _ => (st, flag (list_eqb shard_eqb (fst (k_checkpoint k)) oa && (snd (k_checkpoint k) =? ol)) 31)
   | KFinish ids o => let '(k', a) := k_finish n ids k in ((stream, k'), flag (list_eqb trip_eqb (opt_out a) o) 30)
   | KTick o => let '(k', a) := k_tick n stream k in ((stream, k'), flag (list_eqb trip_eqb (opt_out a) o) 30)
   | KStart _ cka ckl states o =>
@@ -304,6 +316,41 @@ Fixpoint check_httpread (n b : N) (ops : list hop) (r : hreader) (ck : N) (pos :
   | HRestore :: rest => check_httpread n b rest (h_assign ck) ck ock ock
   end.
 
+(* ================= kinesis reader ================= *)
+
+Definition bump (l : list (N * N)) (s d : N) : list (N * N) := (s, lookupN l s + d) :: filter (fun c => negb (fst c =? s)) l.
+
+(* model state: reader, records available per shard, closed shards; spec state: [pos] = (shard, position) of the
+   shards the reader holds = start position + records emitted since *)
+Fixpoint check_kinread (limit : N) (ops : list krop) (r : kreader) (avail : list (N * N)) (closed : list N)
+         (pos : list (N * N)) : list N :=
+  match ops with
+  | [] => []
+  | RPut s c :: rest => check_kinread limit rest r (bump avail s c) closed pos
+  | RClose s :: rest => check_kinread limit rest r avail (s :: closed) pos
+  | RAssign fresh sp :: rest =>
+      check_kinread limit rest (kr_assign sp (if fresh then kr_new else r)) avail closed ((if fresh then [] else pos) ++ sp)
+  | RRead o ofin :: rest =>
+      let '(r', recs, fin) := kr_read limit avail closed r in
+      flag (list_eqb pair_eqb recs o && list_eqb N.eqb fin ofin) 60 ++
+      (* the records of a read belong to one held shard and are its next consecutive records, inside the shard *)
+      flag (match o with
+            | [] => true
+            | (s, _) :: _ => existsb (fun c => fst c =? s) pos
+                             && list_eqb pair_eqb o (map (fun i => (s, i)) (h_range (lookupN pos s) (length o)))
+                             && (lookupN pos s + N.of_nat (length o) <=? lookupN avail s)
+            end) 131 ++
+      (* a shard is reported finished only when it is closed and everything in it has been emitted *)
+      flag (forallb (fun s => memN s closed && (lookupN pos s + (match o with (s', _) :: _ => if s' =? s then N.of_nat (length o) else 0 | [] => 0 end) =? lookupN avail s)) ofin) 131 ++
+      let pos1 := match o with (s, _) :: _ => map (fun c => if fst c =? s then (s, snd c + N.of_nat (length o)) else c) pos | [] => pos end in
+      check_kinread limit rest r' avail closed (filter (fun c => negb (memN (fst c) ofin)) pos1)
+  | RCkpt o :: rest =>
+      flag (list_eqb pair_eqb (kr_checkpoint r) o) 61 ++
+      (* every held shard is reported exactly once, with position = records of it emitted so far *)
+      flag (same_set pair_eqb o pos) 130 ++
+      check_kinread limit rest r avail closed pos
+  end.
+
 Definition check_case (c : case) : list N :=
   match c with
   | CRunner steps o_reports o_streams complete o_acked => check_runner steps o_reports o_streams complete o_acked
@@ -322,6 +369,7 @@ Definition check_case (c : case) : list N :=
          flag (list_eqb N.eqb (map fst o_cur) (concat o)
                && forallb (fun sc => match snd sc, embedded_cursor states (fst sc) with
                                      | Some a, Some b => a =? b | None, None => true | _, _ => false end) o_cur) 123)
+  | CKinRead limit ops => check_kinread limit ops kr_new [] [] []
   | CHttpRead n b ops => check_httpread n b ops (h_assign 0) 0 0 0
   | CHttp runners states o =>
       flag (list_eqb (fun a b => (fst a =? fst b) && list_eqb N.eqb (snd a) (snd b))
